@@ -1,5 +1,7 @@
 import OtelVerif.Common.Line
 import OtelVerif.Model.C06
+import OtelVerif.Model.C06Dag
+import OtelVerif.Gen.FanoutShape
 /-! driver for C06: models `c06-fan` (fan-out consumer) and `c06-graph` (pipeline capabilities) -/
 open OtelVerif OtelVerif.Line OtelVerif.C06
 
@@ -57,6 +59,11 @@ def fanHandler : Handler FS where
             else s!"obs after {i} eq={b01 (hf.read o == some 0)}")
         ({ s with caps := caps }, [s!"obs cap {b01 (fanCap caps)}"] ++ callLines ++ [s!"obs err {nerr}"] ++ afters)
       | _, _, _, _, _ => (s, ["obs bad-op"])
+    | "route" :: rest =>
+      let sel : Option (List Nat) := (kv rest "sel").bind (fun v => if v = "-" then some [] else (v.splitOn ",").mapM String.toNat?)
+      match kvNat rest "n", sel with
+      | some n, some sel => (s, [s!"obs route {if (routerSelect n sel).isSome then "ok" else "error"}"])
+      | _, _ => (s, ["obs bad-op"])
     | _ => (s, ["obs bad-op"])
   onObs := fun s toks =>
     match toks with
@@ -71,16 +78,108 @@ def fanHandler : Handler FS where
     | [] => ["prop isolation=ok"]
     | f :: _ => [s!"prop isolation=FAIL {f}"]
 
+/-! ### `c06-graph` -/
+
+open OtelVerif.C06.Dag in
+/-- `n` writers `<id> <m>` -/
+def takeWs : Nat → List String → Option (List (Nat × Bool) × List String)
+  | 0, rest => some ([], rest)
+  | n + 1, id :: m :: rest =>
+    match id.toNat?, takeWs n rest with
+    | some i, some (ws, r) => some ((i, m == "1") :: ws, r)
+    | _, _ => none
+  | _, _ => none
+
+open OtelVerif.C06.Dag in
+/-- pre-order token list of a forest (the consumers of one fan-out), closed by `]`:
+`e <id> <m>` exporter · `p <n> (<id> <m>)×n <kids…> ]` pipeline with `n` processors · `c <id> <m> <kids…> ]` connector -/
+def parseForest : Nat → List String → Option (Forest × List String)
+  | 0, _ => none
+  | _ + 1, "]" :: rest => some (.nil, rest)
+  | fuel + 1, "e" :: id :: m :: rest =>
+    match id.toNat?, parseForest fuel rest with
+    | some i, some (f, r) => some (.exp i (m == "1") f, r)
+    | _, _ => none
+  | fuel + 1, "c" :: id :: m :: rest =>
+    match id.toNat?, parseForest fuel rest with
+    | some i, some (kids, r1) =>
+      match parseForest fuel r1 with
+      | some (sib, r2) => some (.inner .conn [(i, m == "1")] kids sib, r2)
+      | none => none
+    | _, _ => none
+  | fuel + 1, "p" :: n :: rest =>
+    match n.toNat?.bind (fun n => takeWs n rest) with
+    | some (ws, r0) =>
+      match parseForest fuel r0 with
+      | some (kids, r1) =>
+        match parseForest fuel r1 with
+        | some (sib, r2) => some (.inner .pipe ws kids sib, r2)
+        | none => none
+      | none => none
+    | none => none
+  | _, _ => none
+
+def showTrail (t : List Nat) : String := if t.isEmpty then "-" else ".".intercalate (t.map toString)
+
+def parseTrail (s : String) : Option (List Nat) :=
+  if s = "-" then some [] else (s.splitOn ".").mapM String.toNat?
+
+def sortStrs (l : List String) : List String := (l.toArray.qsort (· < ·)).toList
+
+/-- one exporter call as the harness prints it: `<id>:<ro>:<trail at call>:<trail at the end>:<number of exporter calls holding the same object>` -/
+def parseLeaf (s : String) : Option (Nat × Bool × List Nat × List Nat × Nat) :=
+  match s.splitOn ":" with
+  | [id, ro, t, a, n] =>
+    match id.toNat?, parseTrail t, parseTrail a, n.toNat? with
+    | some i, some t, some a, some n => some (i, ro == "1", t, a, n)
+    | _, _, _, _ => none
+  | _ => none
+
+structure GS where
+  known : List (String × Bool) := []
+  tree : Option OtelVerif.C06.Dag.Forest := none   -- the tree announced by the last `op tree`
+  t0 : List Nat := []
+  fails : List String := []
+  trees : Nat := 0
+
+open OtelVerif.C06.Dag in
+/-- declared capability of the exporters of a forest -/
+def leafMut : Forest → List (Nat × Bool)
+  | .nil => []
+  | .exp id m rest => (id, m) :: leafMut rest
+  | .inner _ _ kids rest => leafMut kids ++ leafMut rest
+
+open OtelVerif.C06.Dag in
+/-- the property itself, judged on the implementation's `obs leaves` line against the ABSTRACT semantics (private copies,
+`specAll`; `checkLeaves` is proved sound in `C06_dag_check_sound`), not against the operational model: every exporter call shows
+exactly the tags of the declared mutators on its own path; at the very end (after the asynchronous writes of all declared mutators) its object holds that plus its own two tags; a declared mutator
+never sees a read-only object -/
+def judgeLeaves (f : Forest) (t0 : List Nat) (entries : List (Nat × Bool × List Nat × List Nat × Nat)) : List String :=
+  let seen := entries.map (fun e => (e.1, e.2.2.1))
+  let muts := leafMut f
+  (if checkLeaves f t0 seen then [] else ["sig=C06/dag/exporter-call-not-a-private-copy"]) ++
+  (if entries.all (fun e => e.2.2.2.1 == e.2.2.1 ++ (if muts.lookup e.1 == some true then [e.1, e.1] else [])) then []
+   else ["sig=C06/dag/exporter-object-changed-after-call"]) ++
+  (if entries.all (fun e => !(muts.lookup e.1 == some true && e.2.1)) then [] else ["sig=C06/dag/declared-mutator-handed-readonly-object"]) ++
+  -- C06_dag_shared_readonly / C06_dag_exclusive judged on the implementation
+  (if entries.all (fun e => e.2.2.2.2 ≤ 1 || e.2.1) then [] else ["sig=C06/dag/shared-object-not-readonly"]) ++
+  (if entries.all (fun e => !(muts.lookup e.1 == some true) || e.2.2.2.2 ≤ 1) then [] else ["sig=C06/dag/mutating-exporter-shares-its-object"])
+
 /-- `c06-graph`: pipelines are announced leaves first.
 `op pipe id=<name> procs=<bits> exps=<bits of plain exporters> conn=-|<base>:<next1>,<next2>[;<base>:<next>…]` → `obs cap <b>`;
 every connector in exporter position contributes `aggregateCap base (caps of its next pipelines)`.
 Exporter order inside the fan-out is irrelevant (`C06_fanCap_all`).
 `op hop caps=<bits> ro=<b>`: one fan-out call (receiver or connector → pipelines, or pipeline → exporters and connectors) with the
 consumers in a canonical (name) order → `obs hop ro=<bits seen at call> origmut=<n>`: the order-independent summary
-(`C06_seen_ro`, `C06_origMut`, `C06_summary_perm`). -/
-def graphHandler : Handler (List (String × Bool)) where
-  init := []
-  onOp := fun known toks =>
+(`C06_seen_ro`, `C06_origMut`, `C06_summary_perm`).
+`op tree ro=<b> <forest tokens>`: ONE payload injected at a receiver whose fan-out serves the given forest (the whole unfolded graph
+below that receiver) → `obs leaves <sorted id:ro:trail-at-call:trail-at-end,…>` computed by the operational whole-graph model
+`Dag.fan` (refines the private-copy semantics: `C06_dag_refines`, `C06_dag_final`, `C06_dag_no_panic`) + `obs caps <bits>`: the
+capability every top-level pipeline advertises (`Dag.caps`). -/
+def graphHandler : Handler GS where
+  init := {}
+  onOp := fun s toks =>
+    let known := s.known
     match toks with
     | "pipe" :: rest =>
       match kv rest "id", (kv rest "procs").bind parseBits, (kv rest "exps").bind parseBits, kv rest "conn" with
@@ -96,17 +195,48 @@ def graphHandler : Handler (List (String × Bool)) where
         match connCap with
         | some cc =>
           let cap := pipelineCap p (e ++ cc)
-          ((id, cap) :: known, [s!"obs cap {b01 cap}"])
-        | none => (known, ["obs bad-op"])
-      | _, _, _, _ => (known, ["obs bad-op"])
+          ({ s with known := (id, cap) :: known }, [s!"obs cap {b01 cap}"])
+        | none => (s, ["obs bad-op"])
+      | _, _, _, _ => (s, ["obs bad-op"])
     | "hop" :: rest =>
       match (kv rest "caps").bind parseBits, kvNat rest "ro" with
       | some caps, some ro =>
         let inputRO := ro = 1
         let flags := (List.range caps.length).map (fun c => b01 (seenRO caps inputRO c))
-        (known, [s!"obs hop ro={if flags.isEmpty then "-" else String.join flags} origmut={origMut caps inputRO}"])
-      | _, _ => (known, ["obs bad-op"])
-    | _ => (known, ["obs bad-op"])
+        (s, [s!"obs hop ro={if flags.isEmpty then "-" else String.join flags} origmut={origMut caps inputRO}"])
+      | _, _ => (s, ["obs bad-op"])
+    | "tree" :: roTok :: failTok :: t0Tok :: rest =>
+      let failIds : Option (List Nat) := (kv [failTok] "fail").bind (fun v => if v = "-" then some [] else (v.splitOn ",").mapM String.toNat?)
+      -- t0: what the payload holds when it enters (empty at a receiver; the trail so far for a payload created by a cross-signal connector)
+      match kvNat [roTok] "ro", failIds, (kv [t0Tok] "t0").bind parseTrail, parseForest (rest.length + 1) rest with
+      | some ro, some fails, some t0, some (f, []) =>
+        let r := Dag.fan f 0 (Dag.Heap.init t0 (ro = 1))
+        -- afterwards every declared mutator writes once more to the object it holds (`Dag.later`, C06_dag_async)
+        let hEnd := Dag.later r.2 r.1 ((List.range r.2.length).filterMap (fun i => (r.2[i]?).map (fun ob => (i, ob.id))))
+        let entries := r.2.map (fun ob =>
+          s!"{ob.id}:{b01 ob.ro}:{showTrail ob.content}:{showTrail (hEnd.content ob.obj)}:{(r.2.filter (fun x => x.obj == ob.obj)).length}")
+        let capBits := (Dag.caps f).map b01
+        ({ s with tree := some f, t0 := t0, trees := s.trees + 1,
+                  fails := s.fails ++ (if r.1.panics.isEmpty then [] else ["sig=C06/dag/model-panics"]) },
+          [s!"obs caps {if capBits.isEmpty then "-" else String.join capBits}",
+           -- every exporter below is called whatever its siblings returned; the error the receiver gets back aggregates every failing call
+           s!"obs errs {(r.2.filter (fun ob => fails.contains ob.id)).length}",
+           s!"obs leaves {if entries.isEmpty then "-" else ",".intercalate (sortStrs entries)}"])
+      | _, _, _, _ => (s, ["obs bad-op"])
+    | _ => (s, ["obs bad-op"])
+  onObs := fun s toks =>
+    match toks, s.tree with
+    | [_, "leaves", l], some f =>
+      let parsed := if l = "-" then some [] else (l.splitOn ",").mapM parseLeaf
+      match parsed with
+      | some es => { s with fails := s.fails ++ judgeLeaves f s.t0 es, tree := none }
+      | none => { s with fails := s.fails ++ ["sig=C06/dag/unparsable-leaves"], tree := none }
+    | _, _ => s
+  onEnd := fun s =>
+    if s.trees = 0 then [] else
+    match s.fails with
+    | [] => ["prop dag-private-copy=ok"]
+    | f :: _ => [s!"prop dag-private-copy=FAIL {f}"]
 
 /-- `c06-exp`: `op exp sig=… declared=-|0|1 batching=0|1 opts=…` → `obs cap <b>` -/
 def expHandler : Handler Unit where
@@ -118,6 +248,19 @@ def expHandler : Handler Unit where
       | some d, some b =>
         let decl : Option Bool := if d = "1" then some true else if d = "0" then some false else none
         (s, [s!"obs cap {b01 (exporterCap decl (b = 1))}"])
+      | _, _ => (s, ["obs bad-op"])
+    | "exph" :: rest =>
+      -- the exporter's own declarations in option order + whether it batches; constants regenerated from base_exporter.go / consumer
+      match (kv rest "decls").bind parseBits, kvNat rest "batching" with
+      | some ds, some b =>
+        (s, [s!"obs cap {b01 (exporterCapH Gen.FanoutShape.consumerDefaultMutates Gen.FanoutShape.exporterBatchingDeclares ds (b = 1))}"])
+      | _, _ => (s, ["obs bad-op"])
+    | "proch" :: rest =>
+      -- a processor built with the processor helper (x=1: xprocessorhelper, profiles): its own declarations in option order
+      match (kv rest "decls").bind parseBits, kvNat rest "x" with
+      | some ds, some x =>
+        let hd := if x = 1 then Gen.FanoutShape.xprocessorHelperDefaults else Gen.FanoutShape.processorHelperDefaults
+        (s, [s!"obs cap {b01 (processorCapH Gen.FanoutShape.consumerDefaultMutates hd ds)}"])
       | _, _ => (s, ["obs bad-op"])
     | _ => (s, ["obs bad-op"])
 
